@@ -401,16 +401,22 @@ where
         // Take both lists in one critical section. Walking the live lists
         // while other threads remove entries from them skips neighbours, and
         // a mirror entry may already be gone when we get to it.
+        #[cfg(gdsl_verif)]
+        crate::verif_hook::lock_point(&self.inner.2, true);
         let (outbound, inbound) = self.inner.2.write().unwrap().take_all();
         // An edge is stored as outbound on its creator and inbound on the
         // other endpoint.
         for (v, _) in outbound {
             if let Some(v) = v.upgrade() {
+                #[cfg(gdsl_verif)]
+                crate::verif_hook::lock_point(&v.inner.2, true);
                 let _ = v.inner.2.write().unwrap().remove_inbound(self.key());
             }
         }
         for (v, _) in inbound {
             if let Some(v) = v.upgrade() {
+                #[cfg(gdsl_verif)]
+                crate::verif_hook::lock_point(&v.inner.2, true);
                 let _ = v.inner.2.write().unwrap().remove_outbound(self.key());
             }
         }
